@@ -79,6 +79,8 @@ PRELUDES = {'plain': [], 'sigstate': ['sighandler 10', 'sighandler 13', 'sighand
             # the caller has blocked SIGPIPE / SIGXFSZ / SIGTTOU / SIGUSR1 and one instance of each is PENDING: it must still be pending, and
             # undelivered, afterwards (the digest holds the pending set; a delivery would kill the process)
             'blocked_signals_pending': ['sigmask 13', 'sigmask 25', 'sigmask 22', 'sigmask 10', 'raise 13', 'raise 25', 'raise 22', 'raise 10'],
+            # the caller keeps its stdout and stderr in non-blocking mode (event-driven programs do): the digest holds F_GETFL of every descriptor
+            'std_streams_non_blocking': ['nonblock 1', 'nonblock 2'],
             # the caller's stdout holds text it has not flushed yet (fully buffered), its stderr is wide-oriented
             'callers_stdio_in_use': ['stdiopending 1'],
             # environment values with line feeds / carriage returns in the variables the data sources read
